@@ -12,6 +12,10 @@ import (
 
 var ErrClockNotExist = errors.New("clock doesn't exist")
 
+// ErrClockBroken is returned when the clock file exists but its content can't be decoded,
+// for example after a crash between the truncation of the file and the write of the new value.
+var ErrClockBroken = errors.New("clock is broken")
+
 type PersistedClock struct {
 	*MemClock
 	root     billy.Filesystem
@@ -91,12 +95,8 @@ func (pc *PersistedClock) read() error {
 
 	var value uint64
 	n, err := fmt.Sscanf(string(content), "%d", &value)
-	if err != nil {
-		return err
-	}
-
-	if n != 1 {
-		return fmt.Errorf("could not read the clock")
+	if err != nil || n != 1 {
+		return ErrClockBroken
 	}
 
 	pc.MemClock = NewMemClockWithTime(value)
